@@ -81,10 +81,16 @@ func VerifC07Failover() {
 	s.config.Clustering.ReplicaFetchTimeout = time.Hour
 	vRaftIndex = 0
 	reps := []string{"r1", "r2", "r3"}
-	// create the stream through the sequencer
+	// create the stream through the sequencer; the in-sync set is complete or
+	// already shrunk to the leader and one follower (so that it can grow)
+	isr0 := reps
+	if vParam("smallisr", 1) == 1 && vChoose(2) == 1 {
+		isr0 = []string{"r1", "r2"}
+		vCover("small-initial-isr")
+	}
 	_, err := s.getRaft().applyOperation(context.Background(), &proto.RaftLog{Op: proto.Op_CREATE_STREAM, CreateStreamOp: &proto.CreateStreamOp{Stream: &proto.Stream{
 		Name: "a", Subject: "a", Partitions: []*proto.Partition{{Stream: "a", Subject: "a", Id: 0, ReplicationFactor: 3,
-			Replicas: reps, Isr: reps, Leader: "r1"}}}}}, nil)
+			Replicas: reps, Isr: isr0, Leader: "r1"}}}}}, nil)
 	vAssert(err == nil, "stream created")
 	p := s.metadata.GetPartition("a", 0)
 	vAssert(p != nil, "partition exists")
